@@ -379,6 +379,10 @@ theorem modDeregCore_triple {R : St → Prop} (hR : Stable R) (ar : Prog Int) (h
               · intro _; exact Triple.retR _ (fun _ h => h.2)
 
 /-- `m_map_iterate` over the module table -/
+theorem unmodelled_triple {R : St → Prop} (hR : Stable R) (w : String) : Triple R (unmodelled w) (fun _ => R) := by
+  unfold unmodelled
+  exact Triple.bind (Q := fun _ => R) (Triple.quietS hR _ (quiet_emit _)) fun _ => Triple.retR _ (fun _ h => h)
+
 theorem iterSlots_triple {R : St → Prop} (f : ModId → Prog Int) (hf : ∀ m, Triple R (f m) (fun _ => R)) :
     ∀ (slots : List (Nat × Bool)) (again : Option Nat), Triple R (iterSlots f slots again) (fun _ => R) := by
   intro slots
@@ -411,13 +415,25 @@ theorem iterSlots_triple {R : St → Prop} (f : ModId → Prog Int) (hf : ∀ m,
               · intro _; exact Triple.retR _ (fun _ h => h.2)
               · intro _; exact Triple.weaken (ih none) (fun _ _ h => h.2) (fun _ _ _ h => h)
 
-theorem iterMods_triple {R : St → Prop} (f : ModId → Prog Int) (hf : ∀ m, Triple R (f m) (fun _ => R)) :
+theorem iterMods_triple {R : St → Prop} (hR : Stable R) (f : ModId → Prog Int) (hf : ∀ m, Triple R (f m) (fun _ => R)) :
     Triple R (iterMods f) (fun _ => R) := by
   unfold iterMods
   refine Triple.bind Triple.get fun s => ?_
   apply Triple.ite
   · intro _; exact Triple.retR _ (fun _ h => h.2)
-  · intro _; exact Triple.weaken (iterSlots_triple f hf _ _) (fun _ _ h => h.2) (fun _ _ _ h => h)
+  · intro _
+    refine Triple.weaken (iterSlots_triple _ (fun m => ?_) _ _) (fun _ _ h => h.2) (fun _ _ _ h => h)
+    refine Triple.bind (Q := fun _ => R) (hf m) fun r => ?_
+    refine Triple.bind Triple.get fun s' => ?_
+    cases s'.ctx with
+    | none => exact Triple.retR _ (fun _ h => h.2)
+    | some c' =>
+      simp only
+      apply Triple.ite
+      · intro _
+        refine Triple.bind (Q := fun _ => R) ?_ fun _ => Triple.retR _ (fun _ h => h)
+        exact Triple.weaken (unmodelled_triple hR _) (fun _ _ h => h.2) (fun _ _ _ h => h)
+      · intro _; exact Triple.retR _ (fun _ h => h.2)
 
 theorem destroyLoop_triple {R : St → Prop} (hR : Stable R) : ∀ n, Triple R (destroyLoop n) (fun _ => R) := by
   intro n
@@ -430,7 +446,7 @@ theorem destroyLoop_triple {R : St → Prop} (hR : Stable R) : ∀ n, Triple R (
     · intro _; exact Triple.retR _ (fun _ h => h.2)
     · intro _
       refine Triple.bind (Q := fun _ => R) ?_ fun r => ?_
-      · refine Triple.weaken (iterMods_triple _ fun m => modDeregCore_triple hR _ (Triple.retR _ (fun _ h => h)) m)
+      · refine Triple.weaken (iterMods_triple hR _ fun m => modDeregCore_triple hR _ (Triple.retR _ (fun _ h => h)) m)
           (fun _ _ h => h.2) (fun _ _ _ h => h)
       apply Triple.ite
       · intro _; exact Triple.retR _ (fun _ h => h)
@@ -504,13 +520,9 @@ theorem loopStartP_triple {R : St → Prop} (hR : Stable R) : Triple R loopStart
   unfold loopStartP
   refine Triple.bind (Q := fun _ => R) (Triple.updCtx hR _ (fun _ => rfl) (fun _ => rfl)) fun _ => ?_
   refine Triple.bind (Q := fun _ => R) (Triple.updCtx hR _ (fun _ => rfl) (fun _ => rfl)) fun _ => ?_
-  refine Triple.bind (Q := fun _ => R) (iterMods_triple _ (evaluateP_triple hR)) fun _ => ?_
+  refine Triple.bind (Q := fun _ => R) (iterMods_triple hR _ (evaluateP_triple hR)) fun _ => ?_
   refine Triple.bind (Q := fun _ => R) (Triple.quietS hR _ (quiet_tellSystem _ _ _ _)) fun _ => ?_
   exact Triple.retR _ (fun _ h => h)
-
-theorem unmodelled_triple {R : St → Prop} (hR : Stable R) (w : String) : Triple R (unmodelled w) (fun _ => R) := by
-  unfold unmodelled
-  exact Triple.bind (Q := fun _ => R) (Triple.quietS hR _ (quiet_emit _)) fun _ => Triple.retR _ (fun _ h => h)
 
 /-- `loop_stop` -/
 theorem loopStopP_triple {R : St → Prop} (hR : Stable R) (cid : Nat) : Triple R (loopStopP cid) (fun _ => R) := by
@@ -526,7 +538,7 @@ theorem loopStopP_triple {R : St → Prop} (hR : Stable R) (cid : Nat) : Triple 
     refine Triple.bind (Q := fun _ => R) ?_ fun _ => ?_
     · exact Triple.weaken (Triple.updCtx hR _ (fun _ => rfl) (fun _ => rfl)) (fun _ _ h => h.2) (fun _ _ _ h => h)
     refine Triple.bind (Q := fun _ => R) (Triple.quietS hR _ (quiet_tellSystem _ _ _ _)) fun _ => ?_
-    refine Triple.bind (Q := fun _ => R) (iterMods_triple _ (flushModP_triple hR)) fun _ => ?_
+    refine Triple.bind (Q := fun _ => R) (iterMods_triple hR _ (flushModP_triple hR)) fun _ => ?_
     refine Triple.bind Triple.get fun s => ?_
     cases s.ctx with
     | none => exact Triple.retR _ (fun _ h => h.2)
@@ -635,10 +647,18 @@ theorem recvBatchP_triple {R : St → Prop} (hR : Stable R) : ∀ (l : List Poll
   | cons p ps ih =>
     intro n
     unfold recvBatchP
-    refine Triple.bind (Q := fun _ => R) (recvOneP_triple hR p) fun k => ?_
+    refine Triple.bind Triple.get fun s0 => ?_
+    refine Triple.bind (Q := fun _ => R) ?_ fun k => ?_
+    · exact Triple.weaken (recvOneP_triple hR p) (fun _ _ h => h.2) (fun _ _ _ h => h)
+    refine Triple.bind Triple.get fun s1 => ?_
     apply Triple.ite
-    · intro _; exact Triple.retR _ (fun _ h => h)
-    · intro _; exact ih _
+    · intro _
+      refine Triple.bind (Q := fun _ => R) ?_ fun _ => Triple.retR _ (fun _ h => h)
+      exact Triple.weaken (unmodelled_triple hR _) (fun _ _ h => h.2) (fun _ _ _ h => h)
+    · intro _
+      apply Triple.ite
+      · intro _; exact Triple.retR _ (fun _ h => h.2)
+      · intro _; exact Triple.weaken (ih _) (fun _ _ h => h.2) (fun _ _ _ h => h)
 
 theorem recvEventsP_triple {R : St → Prop} (hR : Stable R) (b : List PollEnt) : Triple R (recvEventsP b) (fun _ => R) := by
   unfold recvEventsP
@@ -650,7 +670,7 @@ theorem recvEventsP_triple {R : St → Prop} (hR : Stable R) (b : List PollEnt) 
   · intro _
     apply Triple.ite
     · intro _
-      refine Triple.bind (Q := fun _ => R) (iterMods_triple _ (evaluateP_triple hR)) fun _ => ?_
+      refine Triple.bind (Q := fun _ => R) (iterMods_triple hR _ (evaluateP_triple hR)) fun _ => ?_
       refine Triple.bind (Q := fun _ => R) (Triple.updCtx hR _ (fun _ => rfl) (fun _ => rfl)) fun _ => ?_
       exact Triple.retR _ (fun _ h => h)
     · intro _; exact Triple.retR _ (fun _ h => h)
